@@ -164,6 +164,10 @@ def probes():
         # C17 guards
         "ext_scan_nonmapping": exc_of(lambda: stix2.parse(dict(ident, extensions={"x-foo-ext": 5}), allow_custom=True)),
         "bundle_without_objects": exc_of(lambda: stix2.parse({"type": "bundle", "id": "bundle--" + u})),
+        # C02: unregistered toplevel-property-extension on a type without an `extensions` property
+        "toplevel_without_slot": acc(lambda: stix2.v21.ExternalReference(
+            source_name="s", url="u", extensions={"foo": {"extension_type": "toplevel-property-extension"}}, anything="y")),
+        "empty_extensions": acc(lambda: stix2.v21.Identity(name="n", extensions={})),
         "d2s_ext_nondict": exc_of(lambda: stix2.parse({"type": "x-unknown-type", "id": "x-unknown-type--" + u, "extensions": "abc"})),
     }
 
